@@ -79,6 +79,25 @@ def run(ctx, n=None, compare=True, hashseeds=None):
         a0b, *_ = answer(case, lex)
         if a0b != a0:
             ctx.violations.append(violation("same call twice in one process gave different results", case, lex, impl=a0b, expected=a0, sig=dict(sig0, clause="twice")))
+        # the same call twice on the SAME objects, the initial allocation handed over as one BudgetAllocation object
+        if cfg["rule"] in ("greedy", "phragmen", "maxw") and ans0[0] in ("ok", "oks"):
+            from pabutools.rules import BudgetAllocation
+
+            c2 = dict(c0)
+            ba = BudgetAllocation([built0.projs[nm] for nm in (c0.get("init") or [])])
+            before = [p.name for p in ba]
+            c2["init_obj"] = ba
+            r1, _ = rules.impl_answer(built0, c2)
+            r2, _ = rules.impl_answer(built0, c2)
+            s1, s2 = rules.canon(r1), rules.canon(r2)
+            if cfg["rule"] == "maxw":
+                s1 = s2 = "-" if (r1[0] == r2[0] == "ok") else s1 + "|" + s2
+            if s1 != s2 or (cfg["rule"] != "maxw" and s1 != rules.canon(ans0)):
+                ctx.violations.append(violation("two identical calls sharing one initial-allocation object give different results", case, lex, impl=s2, expected=s1,
+                                                sig=dict(sig0, clause="twice_shared_objects")))
+            if [p.name for p in ba] != before:
+                ctx.violations.append(violation("the caller's initial BudgetAllocation object was modified by the rule", case, lex, impl=[p.name for p in ba], expected=before,
+                                                sig=dict(sig0, clause="twice_shared_objects")))
         # voters in another order
         sh = list(case.ballots)
         rng.shuffle(sh)
